@@ -348,7 +348,11 @@ func (t *Total) Calculate(cur currency.Code, rr cbc.Key) {
 	if t == nil {
 		return
 	}
-	zero := cur.Def().Zero()
+	def := cur.Def()
+	if def == nil {
+		return // unknown currency: nothing can be calculated, validation will complain
+	}
+	zero := def.Zero()
 	t.calculateFinalSum(zero, rr)
 	t.round(zero)
 }
